@@ -60,7 +60,7 @@ class CurrentNodeUsedQuoteColumn(AnalyzerRecursionASTToListBase):
             return quote_column_list
 
         # 不递归处理子查询
-        if isinstance(node, core.ASTSubQueryExpression):
+        if isinstance(node, (core.ASTSubQueryExpression, core.ASTWithClause)):
             return []
 
         return cls.default_handle_node(node)
